@@ -107,6 +107,14 @@ def analyse(repo):
     sq = [ast.unparse(n) for n in ast.walk(tr) if isinstance(n, ast.Assign) and 'used_from_subquery' in ast.unparse(n.targets[0])]
     assert sorted(sq) == sorted(['monad.translator.sqlquery.used_from_subquery = True', 'sqlquery.used_from_subquery = False',
                                  'parent_sqlquery.used_from_subquery = True', 'parent_tableref.sqlquery.used_from_subquery = True']) or not f['subqueryMarksOwner'], sq
+    # ---- QueryResult: every materialisation fetches (limit, offset) — the window the result was created with
+    qr = [n for n in core.body if isinstance(n, ast.ClassDef) and n.name == 'QueryResult'][0]
+    calls = [ast.unparse(c) for c in ast.walk(qr) if isinstance(c, ast.Call) and isinstance(c.func, ast.Attribute) and c.func.attr == '_actual_fetch']
+    assert len(calls) >= 4, calls
+    f['resultFetchesWindow'] = all(c in ('self._query._actual_fetch(self._limit, self._offset)', 'self._query._actual_fetch(limit, offset)') for c in calls)
+    getitems = [ast.unparse(c) for m in qr.body if isinstance(m, ast.FunctionDef) and m.name in ('__getstate__', '__contains__', 'index', '__eq__', '__reversed__', 'reverse', '__str__')
+                for c in ast.walk(m) if isinstance(c, ast.Call) and isinstance(c.func, ast.Attribute) and c.func.attr in ('_get_items', '_actual_fetch')]
+    f['resultFetchesWindow'] = f['resultFetchesWindow'] and all(c.endswith('._get_items()') or c.endswith('_actual_fetch(self._limit, self._offset)') for c in getitems)
     return f
 
 
@@ -126,7 +134,7 @@ def render(f):
              '  getStop : Bound', '  getMultipleAbove : Nat', '  existsStop : Bound', '  firstStop : Bound', '  firstOrdersUnordered : Bool',
              '  firstWithoutDistinct : Bool', '  randomStop : Bound', '  randomOrder : String', '  nullSumIsZero : Bool', '  orderByPrepends : Bool',
              '  deleteSubqueryWhere : Bool', '  deleteSubqueryGroupBy : Bool', '  deleteSubqueryHaving : Bool',
-             '  deleteShortFormGuarded : Bool', '  subqueryMarksOwner : Bool',
+             '  deleteShortFormGuarded : Bool', '  subqueryMarksOwner : Bool', '  resultFetchesWindow : Bool',
              '  deriving DecidableEq, Repr', '',
              'def shape : Shape := {']
     def b(v): return lean_val(v).strip('()') if False else lean_val(v)
@@ -144,7 +152,8 @@ def render(f):
               '  deleteSubqueryGroupBy := %s,' % lean_val(f['deleteSubqueryGroupBy']),
               '  deleteSubqueryHaving := %s,' % lean_val(f['deleteSubqueryHaving']),
               '  deleteShortFormGuarded := %s,' % lean_val(f['deleteShortFormGuarded']),
-              '  subqueryMarksOwner := %s }' % lean_val(f['subqueryMarksOwner']),
+              '  subqueryMarksOwner := %s,' % lean_val(f['subqueryMarksOwner']),
+              '  resultFetchesWindow := %s }' % lean_val(f['resultFetchesWindow']),
               '', 'end PonyVerif.Gen.QueryShape', '']
     return '\n'.join(lines)
 
